@@ -891,4 +891,49 @@ theorem run_evolve {s : State} (h : Inv s) (ops : List Op) (y : Nat) (o : Obj) (
     obtain ⟨o2, h2, e2⟩ := ih (inv_step h op) o1 h1
     exact ⟨o2, h2, Evolve.trans e1 e2⟩
 
+/-! ### helpers of the property theorems -/
+
+theorem gcpInv_le_one {o : Obj} (g : GcpInv o) : o.calls ≤ 1 := by
+  unfold GcpInv at g
+  split at g
+  · rename_i d orig hk
+    cases d with
+    | none => have := g.2.1 rfl; rw [this]; split <;> omega
+    | some dd => have := (g.1 rfl).1; omega
+  · omega
+
+theorem set_self {s : State} {i : Nat} {o : Obj} (h : s.objs i = some o) : s.set i o = s := by
+  cases s with
+  | mk objs next =>
+    simp only [State.set, State.mk.injEq, and_true]
+    funext j
+    by_cases hj : j = i
+    · subst hj; simp at h ⊢; exact h.symm
+    · simp [hj]
+
+theorem live_set_self (s : State) (i : Nat) (o : Obj) (ha : o.alive = true) : (s.set i o).live i = some o := by
+  simp [State.live, ha]
+
+theorem live_set_other (s : State) (i j : Nat) (o : Obj) (hne : j ≠ i) : (s.set i o).live j = s.live j := by
+  simp [State.live, hne]
+
+theorem fromHandle_live {s : State} (hinv : Inv s) (h x a : Nat) (oh : Obj)
+    (hl : s.live h = some oh) (hk : oh.kind = .handle x a) :
+    (step s (.fromHandle a)).2 = .ok [x] := by
+  have e := (live_def _ _ _).mp hl
+  simp only [step, opFromHandle]
+  cases hf : findHandle s a with
+  | none => exact absurd hk (findHandle_none hinv hf h oh x e.1 e.2)
+  | some pr =>
+    obtain ⟨h', obj⟩ := pr
+    obtain ⟨oh', hl', hk'⟩ := findHandle_some hf
+    have e' := (live_def _ _ _).mp hl'
+    have : h' = h := hinv.hd h' h oh' oh obj x a e'.1 e.1 e'.2 e.2 hk' hk
+    subst this
+    rw [hl] at hl'; simp at hl'; subst hl'
+    rw [hk] at hk'; simp at hk'; subst hk'
+    obtain ⟨ox, hox, hoxa⟩ := hinv.nd h' oh e.1 e.2 x (by simp [edges, hk])
+    have : s.live x = some ox := (live_def _ _ _).mpr ⟨hox, hoxa⟩
+    simp [this]
+
 end CffiVerif.Ownership
